@@ -536,6 +536,17 @@ func corpus() []interface{} {
 		in.FailAt = &at
 		out = append(out, in)
 	}
+	// a peer that stalls inside a frame body for longer than the read timeout and
+	// then continues; the rest of the body is a complete frame of a message
+	// nobody sent (frame 1: 4+28 bytes; frame 2: 4 + 16 + 2 + 50 bytes in front of it)
+	embed := &ValSpec{Type: "blob", Fill: "parts", Parts: []PartSpec{{Rep: &[2]int{0, 50}}, {Frame: &PayloadSpec{Val: blob(7, 99)}}}}
+	for _, cut := range [][]int{{104}, {32}, {34}, {60, 44}} {
+		st := len(cut)
+		in := stream("router", "stall-inside-frame", defaultLimit, []ItemSpec{msg(blob(10, 1)), msg(embed), msg(blob(12, 4))}, cutStyle{})
+		in.Cuts = cut
+		in.Stall = &st
+		out = append(out, in)
+	}
 	for _, level := range []string{"router", "tcp"} {
 		tail := []ItemSpec{}
 		if level == "tcp" {
